@@ -5,10 +5,19 @@ import fcntl, hashlib, json, os, re, shutil, subprocess, sys, time, importlib.ut
 from concurrent.futures import ThreadPoolExecutor
 
 ROOT = os.path.dirname(os.path.dirname(os.path.abspath(__file__)))
-COQ = os.path.join(ROOT, "coq")
 HARNESS = os.path.join(ROOT, "harness")
-WORK = os.path.join(ROOT, "work")
-REPO = os.environ.get("VERIF_REPO", "/repo")
+REPO = os.path.abspath(os.environ.get("VERIF_REPO", "/repo"))
+ALT = REPO != "/repo"
+# Normal runs check /repo and build in /verif/coq and /verif/work.  With VERIF_REPO=<dir>
+# (used to try a scratch copy of the repository, e.g. a seeded change, without touching
+# /repo) everything mutable lives under work/alt-<hash>/: a synced copy of coq/, the
+# driver binaries, the case files.  Evidence of such runs goes there too.
+_ALTDIR = os.path.join(ROOT, "work", "alt-" + hashlib.sha1(REPO.encode()).hexdigest()[:10])
+WORK = _ALTDIR if ALT else os.path.join(ROOT, "work")
+COQ = os.path.join(_ALTDIR, "coq") if ALT else os.path.join(ROOT, "coq")
+BIN = os.path.join(WORK, "bin") if ALT else os.path.join(HARNESS, "bin")
+EVID = os.path.join(WORK, "evidence") if ALT else os.path.join(ROOT, "evidence")
+REPLAYS = os.path.join(WORK, "replays") if ALT else os.path.join(ROOT, "replays")
 GOENV = dict(os.environ, GOFLAGS="-mod=mod", GOPROXY="off", GOSUMDB="off", GOTOOLCHAIN="local",
              GOCACHE=os.environ.get("GOCACHE", os.path.join(ROOT, "work", "gocache")))
 COQ_Q = ["-Q", "theories", "Ship", "-Q", "gen", "ShipGen", "-Q", "props", "ShipProps",
@@ -63,12 +72,49 @@ def load_spec(pid):
 
 # ---------------------------------------------------------------- build steps
 def go_build(name, tags=True):
-    """(Re)build one harness command against /repo's working tree."""
-    os.makedirs(os.path.join(HARNESS, "bin"), exist_ok=True)
-    shutil.copyfile(os.path.join(REPO, "go.sum"), os.path.join(HARNESS, "go.sum"))
-    cmd = ["go", "build"] + (["-tags", "verif"] if tags else []) + ["-o", "bin/" + name, "./cmd/" + name]
+    """(Re)build one harness command against the repository's working tree."""
+    os.makedirs(BIN, exist_ok=True)
+    cmd = ["go", "build"]
+    if ALT:
+        mod = open(os.path.join(HARNESS, "go.mod")).read().replace("=> /repo", "=> " + REPO)
+        modfile = os.path.join(WORK, "go.alt.mod")
+        open(modfile, "w").write(mod)
+        shutil.copyfile(os.path.join(REPO, "go.sum"), os.path.join(WORK, "go.alt.sum"))
+        cmd += ["-modfile", modfile]
+    else:
+        shutil.copyfile(os.path.join(REPO, "go.sum"), os.path.join(HARNESS, "go.sum"))
+    cmd += (["-tags", "verif"] if tags else []) + ["-o", os.path.join(BIN, name), "./cmd/" + name]
     rc, out, dt = sh(cmd, cwd=HARNESS, env=GOENV, timeout=900)
     return rc, out
+
+
+GEN_FILES = ["SkiTable.v", "StateTable.v"]
+
+
+def sync_alt():
+    if not ALT:
+        return
+    os.makedirs(COQ, exist_ok=True)
+    sh(["rsync", "-a", "--delete", "--exclude", "gen/", "--exclude", "Makefile*", "--exclude", ".Makefile.d",
+        os.path.join(ROOT, "coq") + "/", COQ + "/"])
+    if not os.path.isdir(os.path.join(COQ, "gen")):
+        sh(["rsync", "-a", os.path.join(ROOT, "coq", "gen") + "/", os.path.join(COQ, "gen") + "/"])
+
+
+def write_coqproject():
+    """_CoqProject is generated: every .v under gen/, theories/, props/."""
+    lines = ["-Q theories Ship", "-Q gen ShipGen", "-Q props ShipProps",
+             "-arg -w -arg -notation-overridden,-deprecated-hint-without-locality,-deprecated-instance-without-locality"]
+    for d in ("gen", "theories", "props"):
+        dd = os.path.join(COQ, d)
+        if os.path.isdir(dd):
+            lines += sorted(d + "/" + f for f in os.listdir(dd) if f.endswith(".v") and not f.startswith("."))
+    new = "\n".join(lines) + "\n"
+    p = os.path.join(COQ, "_CoqProject")
+    old = open(p).read() if os.path.exists(p) else ""
+    if old != new or not os.path.exists(os.path.join(COQ, "Makefile")):
+        open(p, "w").write(new)
+        sh(["coq_makefile", "-f", "_CoqProject", "-o", "Makefile"], cwd=COQ)
 
 
 def regen_tables():
@@ -76,7 +122,8 @@ def regen_tables():
         rc, out = go_build("extract", tags=False)
         if rc != 0:
             return rc, out
-        rc, out, _ = sh([os.path.join(HARNESS, "bin", "extract"), "-repo", REPO, "-out", os.path.join(COQ, "gen")],
+        sync_alt()
+        rc, out, _ = sh([os.path.join(BIN, "extract"), "-repo", REPO, "-out", os.path.join(COQ, "gen")],
                         timeout=120)
         return rc, out
 
@@ -84,8 +131,7 @@ def regen_tables():
 def coq_make():
     """Full .vo build (make -k): everything that still proves gets built."""
     with Lock(".lock_build"):
-        if not os.path.exists(os.path.join(COQ, "Makefile")):
-            sh(["coq_makefile", "-f", "_CoqProject", "-o", "Makefile"], cwd=COQ)
+        write_coqproject()
         rc, out, dt = sh(["make", "-k", "-j16"], cwd=COQ, timeout=3000)
         os.makedirs(WORK, exist_ok=True)
         open(os.path.join(WORK, "make.log"), "w").write(out)
@@ -168,7 +214,7 @@ def eval_cases(pid, spec, cases, wd, tag="cases"):
 
 
 def run_driver(drv, seed, n, outpath, extra=(), timeout=1500):
-    cmd = [os.path.join(HARNESS, "bin", drv["bin"])] + list(drv.get("args", [])) + \
+    cmd = [os.path.join(BIN, drv["bin"])] + list(drv.get("args", [])) + \
           ["-seed", str(seed), "-n", str(n), "-out", outpath] + list(extra)
     env = dict(GOENV)
     rc, out, dt = sh(cmd, cwd=HARNESS, env=env, timeout=timeout)
@@ -201,8 +247,8 @@ def main_check(pid, tier, seed, replay=None):
     spec = load_spec(pid)
     wd = os.path.join(WORK, pid)
     os.makedirs(wd, exist_ok=True)
-    os.makedirs(os.path.join(ROOT, "evidence"), exist_ok=True)
-    os.makedirs(os.path.join(ROOT, "replays"), exist_ok=True)
+    os.makedirs(EVID, exist_ok=True)
+    os.makedirs(REPLAYS, exist_ok=True)
     notes, problems = [], []   # problems: broken obligations / correspondence
 
     # 1. tables from source
@@ -290,7 +336,7 @@ def main_check(pid, tier, seed, replay=None):
             if name in seen:
                 continue
             seen.add(name)
-            rp = os.path.join(ROOT, "replays", "%s-%s-seed%d.json" % (pid, re.sub(r"\W+", "_", name)[:60], seed))
+            rp = os.path.join(REPLAYS, "%s-%s-seed%d.json" % (pid, re.sub(r"\W+", "_", name)[:60], seed))
             body = dict(property=pid, failure=name, seed=seed, tier=tier,
                         how_to_rerun="bin/check %s --replay %s" % (pid, rp))
             if i >= 0:
@@ -306,7 +352,7 @@ def main_check(pid, tier, seed, replay=None):
             log("VIOLATION property=%s replay=%s" % (pid, rp))
     elif problems:
         exit_code = 1
-        rp = os.path.join(ROOT, "replays", "%s-unproved-seed%d.json" % (pid, seed))
+        rp = os.path.join(REPLAYS, "%s-unproved-seed%d.json" % (pid, seed))
         json.dump(dict(property=pid, seed=seed, tier=tier,
                        broken=[dict(kind=k, detail=d) for k, d in problems],
                        searched=dict(cases=len(cases), monitor_failures=0),
@@ -342,7 +388,7 @@ def main_check(pid, tier, seed, replay=None):
         assumptions=spec.get("assumptions", []),
         wall_s=round(time.time() - t0, 2), violations=len(replay_paths),
     )
-    json.dump(ev, open(os.path.join(ROOT, "evidence", pid + ".json"), "w"), indent=1)
+    json.dump(ev, open(os.path.join(EVID, pid + ".json"), "w"), indent=1)
     log("%s tier=%s seed=%d cases=%d nontrivial=%d mismatches=%d monitor_failures=%d proofs=%s wall=%.1fs exit=%d"
         % (pid, tier, seed, len(cases), len(keys_nt), len(mismatches), len(failing),
            "ok" if pr["ok"] else "BROKEN", time.time() - t0, exit_code))
